@@ -381,3 +381,102 @@ func knownEqual(p *Path, at int) [][2]ssa.Value {
 	}
 	return out
 }
+
+// provenance walks the data dependencies of v as they resolve on p, starting at block ordinal 'at':
+// through conversions, slices, field / element loads, arithmetic, result extraction and the arguments
+// (and receiver) of calls. It returns every call met on the way and the leaves the walk ends in
+// (parameters, constants, globals, allocations, field loads of state). Phis resolve to the edge the
+// path took, so a value taken from a different source on another branch is not confused with this one.
+func provenance(p *Path, v ssa.Value, at int) (calls []*ssa.Call, leaves []ssa.Value) {
+	calls, leaves, _ = provenanceNodes(p, v, at)
+	return
+}
+
+// provenanceNodes: as provenance, also returning every value visited.
+func provenanceNodes(p *Path, v ssa.Value, at int) (calls []*ssa.Call, leaves []ssa.Value, nodes []ssa.Value) {
+	seen := map[ssa.Value]bool{}
+	var walk func(v ssa.Value, at, depth int)
+	walk = func(v ssa.Value, at, depth int) {
+		if v == nil {
+			return
+		}
+		v = p.Resolve(v, at)
+		if seen[v] || depth > 40 {
+			return
+		}
+		seen[v] = true
+		nodes = append(nodes, v)
+		switch x := v.(type) {
+		case *ssa.Call:
+			calls = append(calls, x)
+			if x.Call.IsInvoke() {
+				walk(x.Call.Value, at, depth+1)
+			}
+			for _, a := range x.Call.Args {
+				walk(a, at, depth+1)
+			}
+		case *ssa.Extract:
+			walk(x.Tuple, at, depth+1)
+		case *ssa.Convert:
+			walk(x.X, at, depth+1)
+		case *ssa.ChangeType:
+			walk(x.X, at, depth+1)
+		case *ssa.ChangeInterface:
+			walk(x.X, at, depth+1)
+		case *ssa.MakeInterface:
+			walk(x.X, at, depth+1)
+		case *ssa.TypeAssert:
+			walk(x.X, at, depth+1)
+		case *ssa.Slice:
+			walk(x.X, at, depth+1)
+		case *ssa.BinOp:
+			walk(x.X, at, depth+1)
+			walk(x.Y, at, depth+1)
+		case *ssa.Field:
+			walk(x.X, at, depth+1)
+		case *ssa.Index:
+			walk(x.X, at, depth+1)
+		case *ssa.Lookup:
+			walk(x.X, at, depth+1)
+		case *ssa.UnOp:
+			if x.Op == token.MUL {
+				if a, ok := x.X.(*ssa.Alloc); ok {
+					if d := p.Deref(x, at); d != nil && d != ssa.Value(x) {
+						walk(d, at, depth+1)
+						return
+					}
+					leaves = append(leaves, a)
+					return
+				}
+				leaves = append(leaves, x)
+				return
+			}
+			walk(x.X, at, depth+1)
+		default:
+			leaves = append(leaves, v)
+		}
+	}
+	walk(v, at, 0)
+	return
+}
+
+func describeLeaves(P *Program, leaves []ssa.Value) string {
+	var out []string
+	for _, l := range leaves {
+		if _, isConst := l.(*ssa.Const); isConst {
+			continue
+		}
+		s := apString(l)
+		if s == "" {
+			s = l.Name()
+		}
+		out = append(out, s)
+		if len(out) == 4 {
+			break
+		}
+	}
+	if len(out) == 0 {
+		return "no source found"
+	}
+	return "it comes from " + strings.Join(out, ", ")
+}
